@@ -384,6 +384,14 @@ CommBShapes(df) ==
                 : st \in 0..1, v \in 0..7, z \in 0..1}
   IN zero \cup fs \cup b10 \cup b17 \cup b18 \cup b19 \cup b20 \cup b21 \cup b30 \cup regs \cup pairs \cup pos \cup ops
 
+(* Context pairs (C01): the decoder judges the MB field of a Comm-B reply    *)
+(* together with the 13-bit AC / ID field of its header (bits 20-32).  For  *)
+(* such shapes the harness also submits, right after a frame, the frame     *)
+(* with the same message field and another header field, and the first one  *)
+(* again: the result must be a function of the bytes, not of what was       *)
+(* decoded before.  <<offset, width>> of the header fields to vary.         *)
+CtxFields(df) == IF df \in {20, 21} THEN << <<19, 13>> >> ELSE <<>>
+
 AllShapes == BaseShapes \cup ESShapes(17) \cup ESShapes(18) \cup CommBShapes(20) \cup CommBShapes(21)
 
 (* ------------------------------------------------------------------ *)
